@@ -8,7 +8,7 @@ from ..gen import docs as gdocs
 
 FOCUS_SETS = [
     None, None, None,
-    ['word', 'usermac', 'usermac2', 'usermacopt', 'usermacoptonly', 'usermacml', 'label', 'defmac', 'defbymac', 'twice_ext', 'verb', 'atom', 'comment', 'footnote'],
+    ['word', 'usermac', 'usermac2', 'usermacopt', 'usermacoptonly', 'usermacml', 'usermacverb', 'label', 'defmac', 'defbymac', 'twice_ext', 'verb', 'atom', 'comment', 'footnote'],
     ['word', 'itemize', 'enumerate', 'itemlab', 'section', 'usersec', 'proof', 'theorem', 'label', 'comment', 'par'],
     ['word', 'inline', 'display', 'mathtext', 'ref', 'cite', 'citeopt', 'footnote', 'usermac'],
     ['word', 'verb', 'verbatim', 'comment', 'skip', 'ltskip', 'label', 'vanish', 'unk', 'atom', 'accent'],
